@@ -159,6 +159,45 @@ Proof. exact ex_hex_law. Qed.
 Print Assumptions C14_hex_law_satisfiable.
 
 (* ---------------------------------------------------------------------------------------------
+   What the property leaves open (Model.allowed).  The correspondence accepts an observed outcome iff
+   it is a member of [allowed]; the code's behaviour of today, [create], is its first element.
+   ------------------------------------------------------------------------------------------- *)
+
+(* EVERY allowed outcome is the descriptor error or a transport that is faithful in the sense of
+   C14_faithful with "the last part p=v" weakened to "ONE of the parts p=v the string holds": class =
+   the one dispatched for the case-folded interface token; every constructor argument = attribute else
+   constructor default (localhost resolved); a keyword the string gives (once or several times) has
+   the typed value of one of the given parts; the k-th positional has the typed value of the k-th
+   field; what the string does not give comes from the defaults (table parameters only); nothing
+   outside the table is set. *)
+Theorem C14_allowed_faithful : forall py_int py_hex py_float host_ok localhost_ip E d s t,
+  entries_wf E = true -> In (Ok t) (allowed py_int py_hex py_float host_ok localhost_ip E d s) ->
+  faithful_any py_int py_hex py_float localhost_ip E d s t.
+Proof. exact allowed_faithful. Qed.
+Print Assumptions C14_allowed_faithful.
+
+Theorem C14_allowed_has_pinned : forall py_int py_hex py_float host_ok localhost_ip E d s,
+  In (create py_int py_hex py_float host_ok localhost_ip E d s)
+     (allowed py_int py_hex py_float host_ok localhost_ip E d s).
+Proof. exact allowed_has_pinned. Qed.
+Print Assumptions C14_allowed_has_pinned.
+
+(* NOTHING is loosened where the property is definite: for a descriptor that is strict (the plain
+   rendering of its own fields), has no repeated keyword, no surplus field and only canonically
+   written numbers, the only allowed outcome is [create], to which C14_faithful & co. apply *)
+Theorem C14_allowed_tight : forall py_int py_hex py_float host_ok localhost_ip E d s o,
+  open_err E s = false -> In o (allowed py_int py_hex py_float host_ok localhost_ip E d s) ->
+  o = create py_int py_hex py_float host_ok localhost_ip E d s.
+Proof. exact allowed_tight. Qed.
+Print Assumptions C14_allowed_tight.
+
+(* the documented form iface:part:part:... is strict *)
+Theorem C14_wellformed_strict : forall iface parts,
+  no_colon iface -> iface <> [] -> Forall plain parts -> strict (iface ++ join parts) = true.
+Proof. exact strict_join. Qed.
+Print Assumptions C14_wellformed_strict.
+
+(* ---------------------------------------------------------------------------------------------
    Non-vacuity: concrete instances (library = plain decimal / 0x-hex readers, two entries)
    ------------------------------------------------------------------------------------------- *)
 Example C14_ex_wf : entries_wf ex_entries = true /\ usbtmc_shape (usbtmc_entry false false true) = true
@@ -200,3 +239,20 @@ Example C14_ex_roundtrip :
   = Ok (usbtmc_result 1689 12288 (str_of "C012345"))
   /\ format_resource 1689 12288 (str_of "C012345") = str_of "usbtmc:vendorid=0x0699:productid=0x3000:serialnr=C012345".
 Proof. vm_compute. auto. Qed.
+
+(* the allowed set on a repeated keyword: either value, or the error; and only those *)
+Example C14_ex_allowed_repeated :
+  allowed ex_int ex_hex ex_float ex_host ex_ip ex_entries []
+          (str_of "usbtmc:vendorid=1:productid=3:vendorid=2:serialnr=s")
+  = [Ok (usbtmc_result 2 3 (str_of "s"));          (* the code today: the last one *)
+     Ok (usbtmc_result 1 3 (str_of "s")); Ok (usbtmc_result 2 3 (str_of "s")); Err].
+Proof. vm_compute. reflexivity. Qed.
+
+(* open (the error is allowed too) / definite (only [create]) *)
+Example C14_ex_open :
+  map (fun s => open_err ex_entries (str_of s))
+      ["tcp:[2620:0:2d0:200::8]:5025"; "tcp:h:5025"; "usbtmc:vendorid=0x0699:productid=12288:serialnr=C012345";
+       "tcp:h:5:junk"; "tcp:h:+5"; ":tcp:h:5"; "tcp:[h]:5"; "tcp:[::1]x:5"; "tcp:[abc$:5"; "tcp:h:007";
+       "usbtmc:vendorid=1:vendorid=1:productid=3:serialnr=s"]%string
+  = [false; false; false; true; true; true; true; true; true; true; true].
+Proof. vm_compute. reflexivity. Qed.
